@@ -240,12 +240,26 @@ def rule_precedence(ctx, rep, rid: str) -> None:
         f = ctx.tree.method("Parser", fname)
         okr = False
         detail = ""
+
+        def first_arg(stmts):
+            for s_ in stmts:
+                for c in ast.walk(s_):
+                    if isinstance(c, ast.Call) and isinstance(c.func, ast.Attribute) and c.func.attr.endswith("_binary_expression") and c.args:
+                        return norm(c.args[0]).replace(" ", "")
+            return None
+
+        def is_pow_test(t):
+            return isinstance(t, ast.Compare) and len(t.ops) == 1 and isinstance(t.ops[0], ast.Eq) and {norm(t.left), norm(t.comparators[0])} == {"op", "'**'"}
+
         for n in f.own_nodes():
-            if isinstance(n, ast.If) and norm(n.test) == "op == '**'":
-                t1 = norm(n.body[0]) if n.body else ""
-                t2 = norm(n.orelse[0]) if n.orelse else ""
-                okr = "(precedence," in t1.replace(" ", "").replace("(precedence,", "(precedence,") and "precedence + 1" in t2 and "precedence + 1" not in t1
-                detail = f"{t1} / {t2}"
+            if isinstance(n, ast.If) and is_pow_test(n.test):
+                a1, a2 = first_arg(n.body), first_arg(n.orelse)
+                okr = a1 == "precedence" and a2 == "precedence+1"
+                detail = f"{a1} / {a2}"
+            if isinstance(n, ast.IfExp) and is_pow_test(n.test):
+                a1, a2 = norm(n.body).replace(" ", ""), norm(n.orelse).replace(" ", "")
+                okr = a1 == "precedence" and a2 == "precedence+1"
+                detail = f"{a1} / {a2}"
         key = f"{fname}:associativity"
         if okr:
             rep.ok(rid, key, {"recursion": detail})
@@ -306,6 +320,29 @@ def method_tables(ctx) -> List[Tuple[str, Func, Set[str], Set[str], int]]:
     return out
 
 
+def _is_decorating_wrapper(ctx, call: ast.Call, f) -> bool:
+    """call = H(fn): H resolves to repository functions each of which returns a local closure that calls the
+    parameter it was given (a decorator applied by hand)."""
+    cs = ctx.cg.site_of_call.get(id(call))
+    if cs is None or cs.kind != "resolved" or not cs.targets:
+        return False
+    for h in cs.targets:
+        if isinstance(h.node, ast.Lambda):
+            return False
+        ps = [a.arg for a in h.node.args.args if a.arg not in ("self", "cls")]
+        if len(ps) != 1:
+            return False
+        ok = False
+        for r in h.own_nodes():
+            if isinstance(r, ast.Return) and isinstance(r.value, ast.Name) and r.value.id in h.children:
+                inner = h.children[r.value.id]
+                if any(isinstance(c, ast.Call) and isinstance(c.func, ast.Name) and c.func.id == ps[0] for c in inner.own_nodes()):
+                    ok = True
+        if not ok:
+            return False
+    return True
+
+
 def rule_method_tables(ctx, rep, rid: str, families: Optional[Set[str]] = None, floor: int = 1) -> None:
     rep.rule(rid, "the method-name list that property lookup consults for a receiver kind equals the keys of that kind's method table, and every entry is a function defined there", floor=floor)
     for fam, fac, listed, keys, line in method_tables(ctx):
@@ -321,5 +358,7 @@ def rule_method_tables(ctx, rep, rid: str, families: Optional[Set[str]] = None, 
         for m in fac.own_nodes():
             if isinstance(m, ast.Assign) and norm(m.targets[0]) == "methods" and isinstance(m.value, ast.Dict):
                 for k, v in zip(m.value.keys, m.value.values):
+                    if isinstance(v, ast.Call) and len(v.args) == 1 and isinstance(v.args[0], ast.Name) and v.args[0].id in fac.children and _is_decorating_wrapper(ctx, v, fac):
+                        continue  # a function defined here, inside a wrapper that calls it
                     if not (isinstance(v, ast.Name) and v.id in fac.children):
                         rep.bad(rid, f"{fac.qual}:{const_str(k)}", f"{fam}.{const_str(k)} is bound to {norm(v)}, which is not a function defined in {fac.name}", f"{fac.module.rel}:{m.lineno}")
